@@ -2,7 +2,7 @@
    encoders shared by the language-level case kinds. *)
 From Coq Require Import List ZArith NArith Bool String.
 From WF Require Import Base.Bytes Base.Sexp Sem.RangeSet Lang.Types Lang.Ast Lang.Context
-     Sem.Funs Sem.Compile Spec.Denote Spec.Typing Run.C09.
+     Sem.Funs Sem.Compile Spec.Denote Spec.Typing Parse.Lex Parse.Parser Run.C09.
 Import ListNotations.
 Open Scope string_scope.
 Open Scope list_scope.
@@ -314,6 +314,161 @@ Definition run_lang (spec : bool) (head : sexp) (a : list sexp) : option sexp :=
                                    | Some r => enc_vres r
                                    | None => sym (if spec then "undef" else "panic")
                                    end) cs))
+      else None
+  | _ => None
+  end.
+
+(* ---- AST encoders (the shapes harness/src/lang.rs prints) ---- *)
+Definition enc_index (i : index) : sexp :=
+  match i with
+  | IArr n => SList [sym "a"; SInt (Z.of_N n)]
+  | IKey k => SList [sym "k"; SBytes k]
+  | IEach => sym "each"
+  end.
+Definition enc_ip (a : ip) : sexp :=
+  match a with V4 z => SList [sym "v4"; SInt z] | V6 z => SList [sym "v6"; SInt z] end.
+Definition enc_rhs (r : rhs) : sexp :=
+  match r with
+  | RInt z => SList [sym "i"; SInt z]
+  | RBytes b f => SList (sym "s" :: SBytes b :: enc_fmt f)
+  | RIp a => enc_ip a
+  end.
+Definition enc_ordop (o : ordop) : sexp :=
+  sym (match o with OEq => "eq" | ONe => "ne" | OGe => "ge" | OLe => "le" | OGt => "gt" | OLt => "lt" end).
+Definition enc_ip_item (it : ip_item) : sexp :=
+  match it with
+  | IpRange4 a b => SList [sym "r4"; SInt a; SInt b]
+  | IpRange6 a b => SList [sym "r6"; SInt a; SInt b]
+  | IpCidr4 a n => SList [sym "c4"; SInt a; SInt n]
+  | IpCidr6 a n => SList [sym "c6"; SInt a; SInt n]
+  end.
+Definition enc_cmpop (op : cmpop) : sexp :=
+  match op with
+  | CIsTrue => sym "istrue"
+  | COrd o r => SList [sym "ord"; enc_ordop o; enc_rhs r]
+  | CBitAnd z => SList [sym "band"; SInt z]
+  | CContains p f => SList (sym "contains" :: SBytes p :: enc_fmt f)
+  | CMatches p raw => SList (sym "matches" :: SBytes p :: match raw with Some n => enc_fmt (FRaw n) | None => [] end)
+  | CWildcard strict p f => SList (sym "wildcard" :: sbool strict :: SBytes p :: enc_fmt f)
+  | COneOfInt l => SList [sym "in-int"; SList (map (fun r => SList [SInt (fst r); SInt (snd r)]) l)]
+  | COneOfIp l => SList [sym "in-ip"; SList (map enc_ip_item l)]
+  | COneOfBytes l =>
+      SList [sym "in-bytes";
+             SList (map (fun p => match snd p with
+                                  | FQuoted => SBytes (fst p)
+                                  | f => SList (SBytes (fst p) :: enc_fmt f)
+                                  end) l)]
+  | CInList li name => SList [sym "inlist"; SInt (Z.of_nat li); SBytes name]
+  end.
+Definition enc_logop (o : logop) : sexp := sym (match o with LOr => "or" | LXor => "xor" | LAnd => "and" end).
+Definition enc_quant (q : quant) : sexp := sym (match q with QAny => "any" | QAll => "all" end).
+
+Fixpoint enc_lexpr (e : lexpr) : sexp :=
+  match e with
+  | ECombining op items => SList (sym "comb" :: enc_logop op :: enc_lexprs items)
+  | EComparison lhs op => SList [sym "cmp"; enc_iexpr lhs; enc_cmpop op]
+  | EParen e' => SList [sym "paren"; enc_lexpr e']
+  | ENot e' => SList [sym "not"; enc_lexpr e']
+  | EQuantIndex q a => SList [sym "qi"; enc_quant q; enc_iexpr a]
+  | EQuantLogical q a => SList [sym "ql"; enc_quant q; enc_lexpr a]
+  end
+with enc_lexprs (l : lexprs) : list sexp :=
+  match l with LNil => [] | LCons e r => enc_lexpr e :: enc_lexprs r end
+with enc_iexpr (e : iexpr) : sexp :=
+  match e with
+  | IField f idx => SList (sym "field" :: SInt (Z.of_nat f) :: map enc_index idx)
+  | ICall fn a idx => SList (sym "call" :: SInt (Z.of_nat fn) :: SList (enc_args a) :: map enc_index idx)
+  end
+with enc_args (a : args) : list sexp :=
+  match a with ANil => [] | ACons x r => enc_arg x :: enc_args r end
+with enc_arg (a : arg) : sexp :=
+  match a with
+  | AIndex e => SList [sym "ai"; enc_iexpr e]
+  | ALit r => SList [sym "lit"; enc_rhs r]
+  | ALogical e => SList [sym "al"; enc_lexpr e]
+  end.
+
+Definition lexerr_name (k : lexerr) : string :=
+  match k with
+  | EExpectedName => "ExpectedName" | EExpectedLiteral => "ExpectedLiteral" | EParseInt => "ParseInt"
+  | EParseNetwork => "ParseNetwork" | EParseRegex => "ParseRegex" | EParseWildcard => "ParseWildcard"
+  | EInvalidCharacterEscape => "InvalidCharacterEscape"
+  | EInvalidRawStringHashCount => "InvalidRawStringHashCount" | EMissingEndingQuote => "MissingEndingQuote"
+  | ECountMismatch => "CountMismatch" | EUnknownField => "UnknownField" | EUnknownFunction => "UnknownFunction"
+  | EUnknownIdentifier => "UnknownIdentifier" | EUnsupportedOp => "UnsupportedOp"
+  | EIncompatibleRangeBounds => "IncompatibleRangeBounds" | EEOF => "EOF"
+  | EInvalidArgumentsCount => "InvalidArgumentsCount" | EInvalidArgumentKind => "InvalidArgumentKind"
+  | EInvalidArgumentType => "InvalidArgumentType" | EInvalidArgumentValue => "InvalidArgumentValue"
+  | EInvalidIndexAccess => "InvalidIndexAccess" | ETypeMismatch => "TypeMismatch"
+  | EInvalidMapEachAccess => "InvalidMapEachAccess" | EInvalidListName => "InvalidListName"
+  | ENestingLimitExceeded => "NestingLimitExceeded"
+  end.
+
+(* (settings depth star_limit|none) *)
+Definition dec_settings (x : sexp) : option settings :=
+  match x with
+  | SList [h; d; l] =>
+      if sym_is "settings" h then
+        d' <-- as_N d ;;
+        l' <-- (if sym_is "none" l then Some None else option_map Some (as_N l)) ;;
+        Some {| st_max_depth := d'; st_star_limit := l' |}
+      else None
+  | _ => None
+  end.
+
+(* ParseError::new (ast/parse.rs): line number, start column (bytes) and length of
+   the span within its line, from the absolute byte offset of the span *)
+Fixpoint last_line_start (l : bytes) (pos : nat) (upto : nat) (line : nat) (start : nat) : nat * nat :=
+  (* scans l[..upto]; returns (number of newlines, offset after the last one) *)
+  match upto with
+  | O => (line, start)
+  | S u =>
+      match l with
+      | [] => (line, start)
+      | b :: r => if (b =? 10)%N then last_line_start r (S pos) u (S line) (S pos)
+                  else last_line_start r (S pos) u line start
+      end
+  end.
+Fixpoint find_nl (l : bytes) (i : nat) : option nat :=
+  match l with
+  | [] => None
+  | b :: r => if (b =? 10)%N then Some i else find_nl r (S i)
+  end.
+Definition parse_error_new (orig : bytes) (abs_start len : nat) : nat * nat * nat :=
+  let '(line, line_start) := last_line_start orig 0 abs_start 0 0 in
+  let rel := (abs_start - line_start)%nat in
+  let line_text := skipn line_start orig in
+  let len' := match find_nl line_text 0 with
+              | Some line_end => Nat.min len (line_end - rel)
+              | None => len
+              end in
+  (line, rel, len').
+
+(* (parse scheme settings #text) / (parse-value scheme settings #text)
+   -> (ok ast) | (err Kind line column len) | (panic) | (fuel) *)
+Definition enc_parse {A} (enc : A -> sexp) (orig : bytes) (r : lres A) : sexp :=
+  match r with
+  | LOk a _ => SList [sym "ok"; enc a]
+  | LErr k at_ n =>
+      let trimmed := trim orig in
+      (* an all-whitespace input trims to the empty slice at offset 0 *)
+      let lead := match trimmed with [] => O | _ => (List.length orig - List.length (trim_start orig))%nat end in
+      let abs_start := (lead + (List.length trimmed - List.length at_))%nat in
+      let '(line, col, len) := parse_error_new orig abs_start n in
+      SList [sym "err"; sym (lexerr_name k); SInt (Z.of_nat line); SInt (Z.of_nat col); SInt (Z.of_nat len)]
+  | LPanic => SList [sym "panic"]
+  | LFuel => SList [sym "fuel"]
+  end.
+
+Definition run_parse (spec : bool) (head : sexp) (a : list sexp) : option sexp :=
+  match a with
+  | [s; stg; SBytes text] =>
+      if sym_is "parse" head then
+        sch <-- dec_scheme s ;; st <-- dec_settings stg ;;
+        Some (enc_parse enc_lexpr text (parse_filter sch st text))
+      else if sym_is "parse-value" head then
+        sch <-- dec_scheme s ;; st <-- dec_settings stg ;;
+        Some (enc_parse enc_iexpr text (parse_value sch st text))
       else None
   | _ => None
   end.
